@@ -50,6 +50,9 @@ func (m *C06Monitor) OnCommit(w *world.World, e *world.CommitEvent) {
 		m.OnStart(w)
 	}
 	if e.Err != nil {
+		if e.Before.Text() != e.After.Text() {
+			w.Violate("C06:failed-transaction-left-effects", "a transaction that failed (%v) changed the database", e.Err)
+		}
 		return
 	}
 	if e.Before.Text() != e.After.Text() {
@@ -310,7 +313,9 @@ func C06Scenarios(tier string) []*Scenario {
 	for _, wl := range workloads {
 		for _, bs := range []bool{false, true} {
 			cfg := taskCfg()
+			cfg.CommitFaults = true
 			out = append(out, &Scenario{
+				CommitFaults: 1,
 				Name: fmt.Sprintf("C06/%s/batches=%v", wl.name, bs), Cfg: cfg, Clock0: wl.clock0, Setup: wl.setup,
 				Clients: wl.clients, Sweeps: wl.sweeps, ClockMenu: wl.menu, Crashes: cr, Batches: bs && tier == "thorough",
 				Faults: tierInt(tier, 0, 1), Epilogue: c06Epilogue, Monitors: mon, Bound: tierInt(tier, 4, -1), StrictDeviations: tier != "thorough",
